@@ -156,6 +156,8 @@ def decide(pid, prop, tier, seed, results, extra, t0, args):
                 return f
             if f.get("native_input") is not None and jsonable(detail_case) == f["native_input"]:
                 return f
+            if f.get("native_inputs") and jsonable(detail_case) in f["native_inputs"]:
+                return f
         return None
 
     for kind, cname, r in results:
